@@ -11,6 +11,9 @@ package main
 //	which=2  fault injection (strace)  case = (target old new sys k kind)
 //	                                   obs  = (#oldbytes ((op res #data) ...) #finalbytes loadres)
 //	which=3  commits racing saves      case = (table (script ...) nsaves)  obs = (loadres ...)
+//	which=4  overlapping saves         case = (table (script ...) K)       obs = ((loadres (done_j ...)) ...)
+//	         K goroutines each loop {real commit of the next offset of one of their jobs; real save} on ONE
+//	         offsetDB (what persistence_mode=sync does) while a checker keeps parsing the current file
 //
 // which=2 runs a helper process (this binary, "c07helper") that performs ONE real save under
 // `strace -f -e inject=...`: the k-th call of one kind fails with EIO/ENOSPC or the process is killed on
@@ -32,6 +35,7 @@ import (
 	"strconv"
 	"strings"
 	"sync"
+	"sync/atomic"
 	"time"
 
 	"github.com/ozontech/file.d/logger"
@@ -533,6 +537,106 @@ func execConcurrent(cs hx.Sx) hx.Sx {
 	return hx.L(snaps...)
 }
 
+// ---- which=4: overlapping saves of one offsetDB, a concurrent reader -----------------------------------
+func execOverlap(cs hx.Sx) hx.Sx {
+	it := hx.Items(cs)
+	table := decodeTable(it[0])
+	scripts := hx.Items(it[1])
+	k := int(hx.Int(it[2]))
+	if k < 1 {
+		k = 1
+	}
+	d := scratch()
+	defer os.RemoveAll(d)
+	cur := filepath.Join(d, "offsets.yaml")
+	p := filein.VerifC07NewProvider(cur, cur+".atomic", table)
+	p.Save()
+	started := make([]atomic.Int64, len(table)) // commits of job j begun (incremented BEFORE the commit)
+	sample := func() hx.Sx {
+		out := make([]hx.Sx, len(table))
+		for i := range started {
+			out[i] = hx.Z(started[i].Load())
+		}
+		return hx.L(out...)
+	}
+	parse := func(content []byte) hx.Sx {
+		var rows []filein.VerifC07Job
+		var err error
+		pn := hx.Catch(func() { rows, err = filein.VerifC07Parse(string(content)) })
+		return loadres(rows, err, pn)
+	}
+	var stop atomic.Bool
+	var wg, cwg sync.WaitGroup
+	var reads []hx.Sx
+	var panicMu sync.Mutex
+	panicked := ""
+	cwg.Add(1)
+	go func() { // the checker
+		defer cwg.Done()
+		var last []byte
+		normal, odd := 0, 0
+		for !stop.Load() {
+			content, err := os.ReadFile(cur)
+			if err != nil || (last != nil && bytes.Equal(content, last)) {
+				runtime.Gosched()
+				continue
+			}
+			last = content
+			lr := parse(content)
+			dn := sample()
+			looksOdd := true
+			if li := hx.Items(lr); len(li) == 2 && len(hx.Items(li[1])) == len(table) {
+				looksOdd = false
+			}
+			if looksOdd && odd < 40 {
+				odd++
+				reads = append(reads, hx.L(lr, dn))
+			} else if !looksOdd && normal < 120 {
+				normal++
+				reads = append(reads, hx.L(lr, dn))
+			}
+		}
+	}()
+	for c := 0; c < k; c++ {
+		wg.Add(1)
+		go func(c int) {
+			defer wg.Done()
+			pn := hx.Catch(func() {
+				pos := make([]int, len(table))
+				for progressed := true; progressed; {
+					progressed = false
+					for i := c; i < len(table) && i < len(scripts); i += k {
+						sc := hx.Items(scripts[i])
+						if pos[i] >= len(sc) {
+							continue
+						}
+						kv := hx.Items(sc[pos[i]])
+						pos[i]++
+						progressed = true
+						started[i].Add(1)
+						p.Commit(pipeline.VerifC07Event(pipeline.SourceID(table[i].SourceID), uint64(pos[i]), hx.Int(kv[1]), hx.Str(kv[0])))
+						p.Save()
+					}
+				}
+			})
+			if pn != "" {
+				panicMu.Lock()
+				panicked = pn
+				panicMu.Unlock()
+			}
+		}(c)
+	}
+	wg.Wait()
+	stop.Store(true)
+	cwg.Wait()
+	if panicked != "" {
+		return hx.L(hx.L(hx.L(hx.I(2)), sample()))
+	}
+	content, _ := os.ReadFile(cur)
+	reads = append(reads, hx.L(parse(content), sample()))
+	return hx.L(reads...)
+}
+
 func exec07(which int, cs hx.Sx) hx.Sx {
 	switch which {
 	case 0:
@@ -543,6 +647,8 @@ func exec07(which int, cs hx.Sx) hx.Sx {
 		return execFault(cs)
 	case 3:
 		return execConcurrent(cs)
+	case 4:
+		return execOverlap(cs)
 	}
 	return hx.L()
 }
@@ -879,6 +985,32 @@ func gen07(c *hmain.Ctx) {
 			distinct[hx.String(s)] = true
 		}
 		c.W.Count(fmt.Sprintf("concurrent: distinct snapshots in one run = %d", len(distinct)))
+	}
+	// ---- overlapping saves of ONE offsetDB (persistence_mode sync with several committing goroutines)
+	for i := 0; i < 24*c.Scale; i++ {
+		nj := r.Range(12, 40)
+		var t []filein.VerifC07Job
+		var scripts []hx.Sx
+		for ji := 0; ji < nj; ji++ {
+			j := filein.VerifC07Job{Filename: fmt.Sprintf("/var/log/pods/app-%d/0.log", ji), Inode: uint64(1000 + ji), SourceID: uint64(5000 + ji), Timestamp: int64(1700000000000000000 + ji)}
+			pool := []string{"stdout", "", "a:b", "stderr", "поток: 7"}
+			cur := map[string]int64{}
+			first := hx.Pick(r, pool)
+			cur[first] = int64(r.Range(1, 50))
+			j.Streams = []filein.VerifC07Stream{{Name: first, Offset: cur[first]}} // something is committed for every job from the start
+			var sc []hx.Sx
+			for n := r.Range(5, 25); n > 0; n-- {
+				name := hx.Pick(r, pool)
+				cur[name] += int64(r.Range(1, 100000))
+				sc = append(sc, hx.L(hx.S(name), hx.Z(cur[name])))
+			}
+			t = append(t, j)
+			scripts = append(scripts, hx.L(sc...))
+		}
+		k := r.Range(2, 6)
+		obs := c.Do("concurrent-saves", 4, hx.L(encodeTable(t), hx.L(scripts...), hx.I(k)), true)
+		c.W.Count(fmt.Sprintf("concurrent-saves: K=%d", k))
+		c.W.Count(fmt.Sprintf("concurrent-saves: distinct file states seen by the checker in one run >= %d", len(hx.Items(obs))/25*25))
 	}
 	if scratchRoot != "" {
 		os.RemoveAll(scratchRoot)
